@@ -5,7 +5,7 @@ import random
 from . import spec as S
 
 # K12 (deliberate feature combinations) is drawn three times as often as the other classes
-CLASSES = ["K1", "K2", "K3", "K4", "K12", "K5", "K6", "K7", "K12", "K8", "K9", "K10", "K11", "K12"]
+CLASSES = ["K1", "K2", "K3", "K4", "K12", "K5", "K6", "K7", "K12", "K8", "K9", "K10", "K11", "K12", "K13"]
 RUN_TYPES = ["AtMostKInARow", "AtLeastKInARow", "ExactlyKInARow", "ExactlyK"]
 
 
@@ -382,7 +382,46 @@ def gen_combo(rng):
     return spec
 
 
+def gen_latin(rng):
+    """K13: LatinSquare over two or three unweighted basic factors, crossed together, singly, or not at all (with
+    MinimumTrials), optionally with a further constraint, an extra factor and a Repeat around it."""
+    spec = {"factors": {}, "order": [], "block": None}
+    n = rng.choice([2, 3, 3])
+    sizes = [n] + [rng.choice([k for k in (2, 3) if k <= n]) for _ in range(rng.choice([1, 1, 2]))]
+    rng.shuffle(sizes)
+    lat = []
+    for i, k in enumerate(sizes):
+        nm = "L%d" % i
+        spec["factors"][nm] = _basic(rng, i, False, nl=k)
+        spec["order"].append(nm)
+        lat.append(nm)
+    if rng.random() < 0.4:
+        spec["factors"]["X"] = _basic(rng, 5, False, nl=2)
+        spec["order"].append("X")
+    names = list(spec["order"])
+    mode = rng.choice(["all", "all", "one", "none"])
+    crossing = lat if mode == "all" else ([lat[0]] if mode == "one" else [])
+    size = 1
+    for f in crossing:
+        size *= len(spec["factors"][f]["levels"])
+    if size > 9:
+        crossing, size = lat[:2], len(spec["factors"][lat[0]]["levels"]) * len(spec["factors"][lat[1]]["levels"])
+    cons = [{"type": "LatinSquare", "factors": list(lat)}]
+    if not crossing or rng.random() < 0.3:
+        cons.append({"type": "MinimumTrials", "trials": rng.choice([n, 2 * n, 2 * n + 1, 3 * n])})
+    if rng.random() < 0.3:
+        cons.append(gen_constraint(rng, spec, names, max(size, n), types=["AtMostKInARow", "Pin", "ExactlyK"], boundary=False))
+    design = list(names)
+    if rng.random() < 0.3:
+        rng.shuffle(design)
+    spec["block"] = {"op": "cross", "design": design, "crossings": [crossing], "cons": cons, "rcc": True,
+                     "mode": "weight", "align": "equal", "ctor": "CrossBlock"}
+    return spec
+
+
 def gen_spec(rng, cls):
+    if cls == "K13":
+        return gen_latin(rng)
     if cls == "K12":
         return gen_combo(rng)
     if cls == "K8":
